@@ -136,6 +136,7 @@ func (v *VerifWheel) Probe() (nodes []VerifNode, consistent bool) {
 type VerifHeap struct {
 	s     *TimerQueue
 	clock int64
+	seen  []*timerNode // every node the worker's pendingAdd arm has received
 }
 
 // NewVerifHeap returns a heap timer whose time unit is one nanosecond of the virtual
@@ -154,6 +155,7 @@ func (v *VerifHeap) PendingDel() int { return len(v.s.pendingDel) }
 func (v *VerifHeap) HandleAdd() bool {
 	select {
 	case node := <-v.s.pendingAdd:
+		v.seen = append(v.seen, node)
 		v.s.addNode(node)
 		return true
 	default:
@@ -191,9 +193,14 @@ func (v *VerifHeap) TrySize() (int, bool) {
 	return 0, false
 }
 
+// Probe lists the heap array in array order (Level 0, Slot = the node's own index
+// field) followed by the nodes the worker has seen that are not in the array (Level -1,
+// Slot = their index field), in the order they were seen; consistent = every array
+// node's index field is its position and no child is Less than its parent.
 func (v *VerifHeap) Probe() (nodes []VerifNode, consistent bool) {
 	consistent = true
 	var h = v.s.timers
+	var inHeap = make(map[*timerNode]bool, len(h))
 	for i, node := range h {
 		if node.index != i {
 			consistent = false
@@ -201,7 +208,13 @@ func (v *VerifHeap) Probe() (nodes []VerifNode, consistent bool) {
 		if i > 0 && h.Less(i, (i-1)/2) {
 			consistent = false
 		}
-		nodes = append(nodes, VerifNode{Slot: i, ID: node.id, Deadline: node.deadline, Period: node.period})
+		inHeap[node] = true
+		nodes = append(nodes, VerifNode{Slot: node.index, ID: node.id, Deadline: node.deadline, Period: node.period})
+	}
+	for _, node := range v.seen {
+		if !inHeap[node] {
+			nodes = append(nodes, VerifNode{Level: -1, Slot: node.index, ID: node.id, Deadline: node.deadline, Period: node.period})
+		}
 	}
 	return
 }
